@@ -2,6 +2,7 @@
 from .. import anchors as A
 from .. import fanout as F
 from .. import shared as S
+from .. import semq as Q
 from ..facts import Callee
 from ..paths import enumerate_paths
 from .. import placement as PL
@@ -79,28 +80,39 @@ def acc(ctx, report, facts, config):
                 report.ob(rule, "%s::%s/%s/no-%s" % (hn, name, child, other), cov2.status == "never",
                           "`%s` is not called on %s inside `%s`" % (other, child, name) if cov2.status == "never" else "`%s` of %s is collected into the %s accumulator" % (other, child, name),
                           site=b.loc(), config=config)
-            accs = [bt.call_args(bb)[1] for bb, t in b.normal_calls() if Callee(t["func"]).name == name]
-            report.ob(rule, "%s::%s/accumulator" % (hn, name), all(a == ("param", 2) for a in accs) and len(accs) == 2,
+            ev, ends = Q.sem(ctx, facts, b)
+            oka = bool(Q.returns(ends))
+            for e in Q.returns(ends):
+                accs = [x[3][1] for x in Q.calls_in(e.path.events, lambda c: c.name == name and c.trait == A.T_RUNWITHPOOL, deep=True) if len(x[3]) == 2]
+                if not (len(accs) == 2 and all(Q.strip(ev, a) == ("param", 2) for a in accs)):
+                    oka = False
+            report.ob(rule, "%s::%s/accumulator" % (hn, name), oka,
                       "both children append to the caller's vector", site=b.loc(), config=config)
     # leaves
     for name in ("reads", "writes"):
         b = F.blanket(facts, A.T_RUNWITHPOOL, name)
         report.touched(b, config)
-        bt = prog.bt(b)
-        ext = [(bb, Callee(t["func"])) for bb, t in b.normal_calls() if Callee(t["func"]).name in ("extend", "append", "extend_from_slice")]
-        ok = len(ext) == 1
-        detail = "%d extend call(s)" % len(ext)
-        if ok:
-            args = bt.call_args(ext[0][0])
-            v = args[1]
-            okv = isinstance(v, tuple) and v[0] == "call" and bt.callee(v[1]).trait == A.T_ACCESSOR and bt.callee(v[1]).name == name
+        ev, ends = Q.sem(ctx, facts, b)
+        rets = Q.returns(ends)
+        ok = bool(rets)
+        detail = "%s.extend(self.accessor().%s())" % (name, name)
+        for e in rets:
+            ext = Q.calls_in(e.path.events, lambda c: c.name in ("extend", "append", "extend_from_slice", "push") and not c.local, deep=True)
+            if len(ext) != 1 or Q.all_loops([e]) or ext[0][2].name == "push":
+                ok = False
+                detail = "leaf `%s` makes %d append(s) on a way through (expected one extend with the accessor's %s)" % (name, len(ext), name)
+                continue
+            tgt, v = ext[0][3][0], Q.strip(ev, ext[0][3][1], extra=("into_iter",))
+            okv = Q.is_call(ev, v, name) and Q.callee_of(ev, v).trait == A.T_ACCESSOR and len(v[2]) == 1
             if okv:
-                # accessor of self
-                acc_t = v[2][0]
-                b_, p_ = root(acc_t, bt, facts.crate)
-                okv = isinstance(b_, tuple) and b_[0] == "call" and bt.callee(b_[1]).name == "accessor" and bt.callee(b_[1]).trait == A.T_SYSTEM and b_[2] == (SELF,)
-            ok = okv and args[0] == ("param", 2)
-            detail = "%s.extend(self.accessor().%s())" % (name, name) if ok else "leaf `%s` does not append self.accessor().%s() to the out-parameter" % (name, name)
+                # accessor of self, however the AccessorCow is looked into
+                a = Q.strip(ev, v[2][0])
+                while isinstance(a, tuple) and a and a[0] in ("field", "variant"):
+                    a = Q.strip(ev, a[1])
+                okv = Q.is_call(ev, a, "accessor") and Q.callee_of(ev, a).trait == A.T_SYSTEM and Q.strip(ev, a[2][0]) == ("param", 1)
+            if not (okv and Q.strip(ev, tgt) == ("param", 2)):
+                ok = False
+                detail = "leaf `%s` does not append self.accessor().%s() to the out-parameter" % (name, name)
         report.ob(rule, "leaf::%s" % name, ok, detail, site=b.loc(), config=config)
     report.floor(rule, "node accumulation obligations", n, 8, config=config)
 
